@@ -63,7 +63,10 @@ def run_case(world, prop, monitor, extra_monitors=(), key_fn=None, nontrivial_fn
         y2 = None
         if len(world["y0"]) and rng.random() < 0.5:
             y2 = np.asarray(world["y0"], float) + 1.0
-        R2 = execute(world, problem=R.problem, solver=R.solver, y0=y2)
+        bufs = None
+        if rng.random() < 0.5 and isinstance(R.x0_arg, np.ndarray) and R.x0_arg.flags.writeable:
+            bufs = (R.x0_arg, R.y0_arg)  # the caller passes the very same arrays again (new values written in place)
+        R2 = execute(world, problem=R.problem, solver=R.solver, y0=y2, start_buffers=bufs)
         execs += 1
         runs.append(("resolved", R2, world))
     if (world.get("case") or {}).get("foreign") and R.trials and (only is None or only == {"variant": "foreign"}):
